@@ -3,7 +3,7 @@
    Executable definitions only; proofs are in NamingProofs.v.
 
    Strings are lists of character codes (N); reader ids are lists of bytes (N, < 256). *)
-From Coq Require Import NArith List Bool String Ascii.
+From Coq Require Import String Ascii NArith List Bool.
 Import ListNotations.
 Open Scope N_scope.
 
@@ -69,7 +69,7 @@ Definition last3 (rid : list N) : list N := skipn (length rid - 3) rid.
 Definition mac_suffix (rid : list N) : list N := join_dash (map hex2_upper (last3 rid)).
 
 Definition is_mac_branch (idtype : N) (rid : list N) : bool :=
-  (idtype =? id_mac_eui64) && (3 <=? length rid)%nat.
+  (idtype =? id_mac_eui64) && (Nat.leb 3 (length rid)).
 
 Definition suffix (idtype : N) (rid : list N) : list N :=
   if is_mac_branch idtype rid then mac_suffix rid else hex_lower rid.
